@@ -13,41 +13,45 @@ REQUIRED = ["Interpolation.__init__", "Interpolation.set", "Interpolation._order
             "minimum_angular_separation"]
 THEOREMS = ["C12_through_points", "C12_newton_form", "C12_polynomial", "C12_derivative", "C12_refused",
             "C12_newton_diff", "C12_constructor_3", "C12_constructor_4", "C12_duplicates",
-            "C12_root_step", "C12_root_sound", "C12_grid_b64"]
+            "C12_root_step", "C12_root_sound", "C12_root_witness", "C12_grid_b64", "C12_grid_found"]
 PROOF_TIMEOUT = {"quick": 1500, "thorough": 3000}
 EXHAUSTIVE = False
 MANIFEST = {
     "category": "proof",
     "text": ("T5/T1: root(): the while loop of the regenerated model (extracted from the generated text) keeps the bracket "
-             "invariant - proved by induction on the loop fuel in the real-number instance for ANY table object (__call__/derivative "
-             "as black boxes): whenever a float is returned it lies in the ordered, clamped [xl, xh] and the interpolant is <= tol "
-             "there (entry paths in-table / reversed / out-of-table / default); the constructor evaluated symbolically on 3- and "
-             "4-point tables: every order of the points and every input form give the object with sorted abscissae and the divided "
-             "differences (the doubly recursive _newton_diff followed level by level), duplicates give ValueError; __call__/derivative "
-             "of a symbolic three-point table pass through the points, equal the Lagrange parabola and its derivative, ValueError "
-             "outside; binary64 kernel evaluation of root/minmax on an explicit grid (24 tables x all limit pairs) against an "
-             "independent Lagrange reference; bit-exact correspondence incl. the four Coordinates helpers; Fraction-exact search "
-             "oracle incl. copy/set call sequences."),
+             "invariant - proved by induction on the loop fuel in the real-number instance for ANY table object whose "
+             "__call__/derivative return a float or raise ValueError (assumption shown satisfiable on a symbolic 3-point table): "
+             "for max_iter < 5000 the outcome is a float inside the ordered, clamped [xl, xh] with |interpolant| <= tol, or "
+             "ValueError - nothing else (the model's OutOfFuel is impossible).  PARTIAL CORRECTNESS: that a root is returned for "
+             "every sign change is not proved.  The constructor evaluated symbolically on 3- and 4-point tables ONLY (property: "
+             "2-9): every order of the points and every input form give the object with sorted abscissae and the divided "
+             "differences, duplicates give ValueError (n = 3, two-list form); __call__/derivative of a symbolic 3-point table "
+             "(n = 3 ONLY) pass through the points, equal the Lagrange parabola and its derivative, ValueError outside; binary64 "
+             "kernel evaluation of root/minmax on an explicit grid (24 tables x all limit pairs, 756 roots found) against an "
+             "independent Lagrange reference; sizes 2-9 by bit-exact correspondence incl. the four Coordinates helpers and a "
+             "Fraction-exact search oracle incl. copy/set call sequences."),
     "technique": "fuel induction over the generated while loop + call-by-value symbolic evaluation (pyrun2) + field/lra/Coquelicot in "
                  "the ideal instance; vm_compute reflection over a finite grid in binary64; generated model + bit-exact differential "
                  "correspondence; exact rational reference in the search",
     "design_ref": "8/C12",
 }
-EXPLANATION = ("root(): bracket invariant of the generated loop proved by induction on its fuel for an arbitrary table (ideal reals); "
-               "constructor, _order_points, _compute_table, _newton_diff evaluated symbolically on 3- and 4-point tables (all point "
-               "orders, all input forms, duplicates); __call__/derivative on a symbolic three-point table equal the Lagrange parabola "
-               "and its derivative; root/minmax evaluated by the Coq kernel on an explicit binary64 grid; larger tables, convergence "
-               "within max_iter and the Coordinates helpers are covered by bit-exact correspondence and the exact-rational search.")
+EXPLANATION = ("root(): bracket invariant of the generated loop proved by induction on its fuel for an arbitrary table (ideal reals): "
+               "float in the clamped interval with |P| <= tol or ValueError, never OutOfFuel for max_iter < 5000 (partial correctness: "
+               "that a root is found is only searched); constructor/_order_points/_compute_table/_newton_diff evaluated symbolically "
+               "on 3- and 4-point tables (all point orders, all input forms, duplicates); __call__/derivative on a symbolic 3-point "
+               "table equal the Lagrange parabola and its derivative; root/minmax evaluated by the Coq kernel on an explicit binary64 "
+               "grid; tables of other sizes (the property says 2-9), convergence and the Coordinates helpers are covered by bit-exact "
+               "correspondence and the exact-rational search only.")
 CLAUSES = {
-    "passes through every tabulated point": "proved [ideal, three-point table with symbolic abscissae/ordinates at least tol apart: C12_through_points]; n = 2..9 searched (exact equality) and bit-exact correspondence",
-    "reproduces polynomials of degree < n (relative 1e-9)": "proved [ideal, n = 3: __call__ = Horner form of the stored table (C12_newton_form), which for divided differences is the Lagrange parabola (C12_polynomial, field); the constructor stores exactly the divided differences (C12_newton_diff n = 3, 4; C12_constructor_3/_4)]; n = 2..9 by correspondence + search against exact Fraction Lagrange",
-    "derivative of that polynomial": "proved [ideal, n = 3: C12_derivative, Coquelicot is_derive]; n = 2..9 searched",
-    "independent of the order of the points and of the input form": "proved [ideal, symbolic x1<x2<x3 and x1<x2<x3<x4 at least tol apart: all 6 resp. 24 orders x (two lists, two tuples, interleaved scalars) and the copy constructor give the identical object with sorted abscissae and the divided-difference table: C12_constructor_3, C12_constructor_4]; n = 2..9 searched; call sequences copy/set searched (key copy-shares-state)",
-    "abscissae outside the table refused with ValueError": "proved [ideal, n = 3: C12_refused]; searched n = 2..9",
-    "duplicated abscissae refused with ValueError": "proved [ideal, three points, two-list form, any pair closer than tol: C12_duplicates]; other sizes/forms searched (exact and 5e-11-apart duplicates) + correspondence",
-    "root(): returned abscissa inside [xl, xh] (ordered, clamped) with |interpolant| <= tol": "proved [ideal, ANY table: bracket invariant by induction on the fuel of the generated loop (C12_root_step) and the entry paths in-table / reversed / reversed+outside / clamped-low / default (C12_root_sound); __call__ and derivative are black boxes returning floats or raising; remaining entry combinations (xl = 0 with xh <> 0, clamped-high only) are not separate theorems]; proved [B64, explicit grid of 24 tables x all limit pairs: C12_grid_b64]",
+    "passes through every tabulated point": "proved [ideal, n = 3 ONLY (property: 2..9): C12_through_points is the |x - xi| < tol shortcut of __call__; the polynomial itself through the points follows from C12_newton_form + C12_polynomial]; n = 2..9 searched (exact equality) and bit-exact correspondence",
+    "reproduces polynomials of degree < n (relative 1e-9)": "proved [ideal, n = 3 ONLY: __call__ = Horner form of the stored table (C12_newton_form), which for divided differences is the Lagrange parabola (C12_polynomial, field); the constructor stores exactly the divided differences (C12_newton_diff n = 3, 4; C12_constructor_3/_4)]; exact real arithmetic, says nothing about the 1e-9 in binary64; n = 2..9 by correspondence + search against exact Fraction Lagrange",
+    "derivative of that polynomial": "proved [ideal, n = 3 ONLY: C12_derivative, Coquelicot is_derive]; n = 2..9 searched",
+    "independent of the order of the points and of the input form": "proved [ideal, n = 3 and n = 4 ONLY, symbolic x1<x2<x3(<x4) at least tol apart: all 6 resp. 24 orders x (two lists, two tuples, interleaved scalars) and the copy constructor give the identical object: C12_constructor_3, C12_constructor_4]; n = 2..9 searched; call sequences copy/set searched (key copy-shares-state)",
+    "abscissae outside the table refused with ValueError": "proved [ideal, n = 3 ONLY: C12_refused; __call__ only beyond the tolerance, within tol of an end node it returns that node's ordinate]; searched n = 2..9",
+    "duplicated abscissae refused with ValueError": "proved [ideal, n = 3, two-list form ONLY, any pair closer than tol: C12_duplicates]; other sizes/forms searched (exact and 5e-11-apart duplicates) + correspondence",
+    "root(): returned abscissa inside [xl, xh] (ordered, clamped) with |interpolant| <= tol": "proved [ideal, ANY table, max_iter in 0..4999; partial correctness: termination with a root unproved - the outcome is such a float or ValueError, nothing else (OutOfFuel/TypeError/Unsupported excluded): C12_root_step (loop, fuel induction), C12_root_sound (entry paths in-table incl. xl = 0, reversed, reversed+outside, clamped-low, default; 'only xh above the table' not a separate theorem); callee assumption (__call__/derivative return float or ValueError) discharged for the symbolic 3-point table: C12_root_witness]; proved [B64, explicit grid of 24 tables x all unequal limit pairs: C12_grid_b64, 756 roots found: C12_grid_found]",
     "root(): a value IS returned whenever the interpolant changes sign (convergence within max_iter)": "unproved (searched): not provable in general; holds on the B64 grid (C12_grid_b64: ValueError only without a clear sign change) and in the search on tables with |y| <= 1000",
-    "minmax(): abscissa inside the interval where the derivative vanishes": "proved [B64, grid: C12_grid_b64 with the independent Lagrange derivative]; ideal: follows the root theorem applied to the derivative table (not stated separately); searched",
+    "minmax(): abscissa inside the interval where the derivative vanishes": "proved [B64, grid only: C12_grid_b64 with the independent Lagrange derivative]; no ideal-instance theorem; searched",
     "conjunction helpers return the time of zero interpolated difference": "unproved (searched): independent Lagrange interpolation of the coordinate differences, 1e-9; bit-exact correspondence of the four helpers",
     "Angle ordinates (conjunction helpers) with rough data": "refuted: known finding angle-ordinates-newton-derivative-wraps - Interpolation([-3..3],[Angle(a) for a in [-1.57,-3.0,-1.29,-0.7,-0.33,-0.06,0.28]]).root() raises ValueError('Too many iterations'), derivative(Angle(2.5)) = 14.5165 instead of 0.0815",
 }
@@ -55,7 +59,7 @@ CLAUSES = {
 
 def proof_files(tier):
     return (["C12_defs.v", "C12_tac.v", "C12_nd.v", "C12_init3a.v", "C12_init3b.v", "C12_init3c.v", "C12_dup3.v",
-             "C12_init4a.v", "C12_init4b.v", "C12_init4c.v", "C12_ctor3.v", "C12_ctor4.v", "C12_ideal.v", "C12_root.v"]
+             "C12_init4a.v", "C12_init4b.v", "C12_init4c.v", "C12_ctor3.v", "C12_ctor4.v", "C12_ideal.v", "C12_root.v", "C12_witness.v"]
             + ["C12_grid_%d.v" % k for k in range(NGRID)] + ["C12_main.v", "C12.v"])
 
 NGRID = 8
@@ -453,15 +457,15 @@ class Oracle:
                 continue        # float table does not converge either: not this finding
             try:
                 ra = float(ao.root())
-                if abs(ra - rf) > 1e-6:
-                    self.report(self.KNOWN_ANGLE, "root() = %r on Angle ordinates, %r on the same float table" % (ra, rf), ctor, "i.root()", [ns, da])
+                if abs(ra - rf) > 1e-6:      # a WRONG value is not the known finding (that one only fails to converge)
+                    self.report("angle-ordinates-wrong-root", "root() = %r on Angle ordinates, %r on the same float table" % (ra, rf), ctor, "i.root()", [ns, da])
             except ValueError as ex:
-                self.report(self.KNOWN_ANGLE, "root() on Angle ordinates raises ValueError(%s) although the float table gives %r (sign change %r .. %r)"
+                self.report(self.KNOWN_ANGLE if "Too many iterations" in str(ex) else "angle-ordinates-root-raises", "root() on Angle ordinates raises ValueError(%s) although the float table gives %r (sign change %r .. %r)"
                             % (" ".join(str(ex).split()), rf, da[0], da[-1]), ctor, "i.root()", [ns, da])
             try:
                 n0, _ = C.planet_star_conjunction([A(100.0 + a) for a in da], [A(10.0 + 0.1 * i) for i in range(m)], A(100.0), A(10.0))
             except ValueError as ex:
-                self.report(self.KNOWN_ANGLE, "planet_star_conjunction with RA differences %r raises ValueError(%s); the float table has its root at %r"
+                self.report(self.KNOWN_ANGLE if "Too many iterations" in str(ex) else "star-conjunction-raises", "planet_star_conjunction with RA differences %r raises ValueError(%s); the float table has its root at %r"
                             % (da, " ".join(str(ex).split()), rf), ctor, "i.root()", [ns, da])
 
     # --- sequences: a copy and its original must not share mutable state --------------------------
